@@ -106,7 +106,8 @@ def sensitivity(only=None, with_suite=False):
             elif only == "mutants":
                 if "/seeded/" in patch:
                     continue
-            elif only and only not in (pid, name, name.split("/")[-1]):
+            elif only and not any(o in (pid, name, name.split("/")[-1]) or
+                                  (o.endswith("*") and name.split("/")[-1].startswith(o[:-1])) for o in only.split(",")):
                 continue
             subprocess.check_call(["git", "-C", wt, "checkout", "-q", "--", "."])
             a = subprocess.run(["git", "-C", wt, "apply", patch], stderr=subprocess.PIPE, text=True)
